@@ -6,6 +6,7 @@ import signal
 import subprocess
 import sys
 
+from .. import programs
 from .. import core, vreactor
 
 PROPERTY = "C15"
@@ -76,7 +77,18 @@ HANDLERS = {"dfl": signal.SIG_DFL, "ign": signal.SIG_IGN, "py": py_handler,
             "default_int": signal.default_int_handler}
 
 
-SPECIAL = {"<ellipsis>": Ellipsis, "<notimplemented>": NotImplemented}
+SPECIAL = {"<ellipsis>": Ellipsis, "<notimplemented>": NotImplemented,
+           # results with an __eq__ of their own: equal to everything / a comparison without a truth value
+           "<anything>": programs.SPECIAL_VALUES["@any"], "<arraylike>": programs.SPECIAL_VALUES["@amb"]}
+_OWN_EQ = (SPECIAL["<anything>"], SPECIAL["<arraylike>"])
+
+
+def same_result(got, want):
+    if got is None or got[0] != want[0]:
+        return False
+    if any(want[1] is o or got[1] is o for o in _OWN_EQ):
+        return got[1] is want[1]
+    return got[1] == want[1]
 
 
 def val(v):
@@ -232,7 +244,7 @@ def x_history(ctx, case):
             name = {"TimeoutError": "timeout-raises-TimeoutError",
                     "NoResultError": "stopped-first-raises-NoResultError"}.get(want[1] if want[0] == "raise" else None,
                                                                                "result==function's-own")
-            ctx.check(got == want, name, lambda: {"run": idx, "got": got, "want": want, **detail()})
+            ctx.check(same_result(got, want), name, lambda: {"run": idx, "got": repr(got), "want": repr(want), **detail()})
             if idx > 0:
                 ctx.check(got == want, "reuse.no-stale-result", lambda: {"run": idx, "got": got, "want": want, **detail()})
             if run.get("reenter"):
@@ -357,7 +369,7 @@ def grid_runs():
         kinds.append({"kind": "fail_at", "t": t, "exc": "ValueError"})
     kinds.append({"kind": "chain", "t": 0.5, "t2": 0.25, "v": [1]})
     # values a sentinel-based implementation could mistake for "no result yet"
-    for v in (None, 0, False, "", "<ellipsis>", "<notimplemented>"):
+    for v in (None, 0, False, "", "<ellipsis>", "<notimplemented>", "<anything>", "<arraylike>"):
         kinds.append({"kind": "ret", "v": v})
         kinds.append({"kind": "fire_at", "t": 0.5, "v": v})
     kinds.append({"kind": "fire_at", "t": 1.0, "v": "tie"})     # exactly at the timeout 1.0
